@@ -28,6 +28,7 @@ def settings_menu(seed, tier):
     R = explore.roles(seed)
     m = [[R['R']], [R['B']], [R['W']], [R['N']], [R['X']], [R['R'], R['W']], [], [R['e']], [R['g']], [R['m']],
          [R['R'], R['B']],        # two new settings that conflict with each other: the last one given shows
+         ['raw:;'],               # a non-empty argument that holds no setting: nothing to apply
          [R['Z']], [R['q']]]      # a reset, a verbatim setting of two groups: settings that touch more than their first code says
     if tier != 'quick':
         m += [[R['T']], [R['U']], [R['D']], [R['W'], R['N']], [R['o']], [R['B'], R['W'], R['R']]]
@@ -179,7 +180,25 @@ def check_state(h, v, acc, tier, only=None):
                             out.append((clause, case, detail))
                     else:
                         acc.validated += 1
-    # AnsiStr twin: returns a new AnsiStr with the same effect, receiver unchanged
+    # AnsiStr twin over the whole bounds grid (a forwarding slip in the wrapper shows only for particular bounds)
+    S = menu[0]
+    vs0 = AnsiStr(build(h))
+    # (on every fifth state in the quick tier: the wrapper does not look at the value)
+    for top in ((True, False) if (tier != 'quick' or pre[2] % 5 == 0) else ()):
+        for i in bounds:
+            for j in bounds:
+                acc.transitions += 1
+                case = {'hist': h, 'op': ['apply_str_grid', S, i, j, top]}
+                try:
+                    w = build(h)
+                    w.apply_formatting(model_settings(S), i, j, top)
+                    r = vs0.apply_formatting(model_settings(S), i, j, top)
+                    if type(r) is not AnsiStr or model.alpha_codes(r) != model.alpha_codes(w):
+                        out.append(('apply-ansistr', case, 'AnsiStr.apply_formatting(%r,%r,%r,%r) differs from AnsiString' % (S, i, j, top)))
+                    else:
+                        acc.validated += 1
+                except Exception as ex:  # noqa
+                    out.append(('apply-ansistr', case, 'AnsiStr.apply_formatting(%r,%r,%r,%r): %s: %s' % (S, i, j, top, type(ex).__name__, ex)))
     if L:
         S = menu[0]
         vs = AnsiStr(build(h))
